@@ -1,8 +1,9 @@
-//! Implementation side of the correspondence check: runs /repo's public API
-//! on cases read from stdin (one JSON value per line) and prints one JSON
-//! observation per line. Panics are caught and reported as {"panic": msg}.
-mod c20;
-
+//! Shared part of the implementation-side drivers. Each property has its own
+//! binary harness/src/bin/<id>.rs (built as build/target/release/<id>) so that
+//! a driver that does not compile never blocks the other checks.
+//! Protocol: `<id> <subcommand>` reads one JSON case per line on stdin and
+//! prints one JSON observation per line. Panics are caught per case and
+//! reported as {"id": .., "panic": msg}.
 use std::io::{self, BufRead, Write};
 
 pub fn run_lines<F>(mut f: F)
@@ -38,17 +39,18 @@ where
     }
 }
 
-fn main() {
+/// Dispatch `argv[1]` over a table of subcommands.
+pub fn dispatch(table: &[(&str, fn(&serde_json::Value) -> serde_json::Value)]) {
     // keep panic messages out of stderr noise; they are reported per case
     std::panic::set_hook(Box::new(|_| {}));
     let args: Vec<String> = std::env::args().collect();
     let cmd = args.get(1).map(|s| s.as_str()).unwrap_or("");
-    match cmd {
-        "c20-topo" => run_lines(c20::topo),
-        "c20-kahn" => run_lines(c20::kahn),
-        _ => {
-            eprintln!("unknown subcommand {cmd}");
-            std::process::exit(2);
+    for (name, f) in table {
+        if *name == cmd {
+            run_lines(*f);
+            return;
         }
     }
+    eprintln!("unknown subcommand {cmd}");
+    std::process::exit(2);
 }
